@@ -1,5 +1,5 @@
 (* C13 - Over-long names are cut on a character boundary; over-long icons are dropped. *)
-From Ctap Require Import Base Schema Wire Utf8 Typed Procs Inst Tables Limits WireP TypedP FramingP Utf8P StrsP ObRequestSide.
+From Ctap Require Import Base Schema Wire Utf8 Typed Procs Inst Tables Limits WireP TypedP FramingP Utf8P StrsP ObRequestSide FnShapes Shapes ObShapeStrings.
 Local Open Scope string_scope.
 Local Open Scope Z_scope.
 
@@ -83,6 +83,11 @@ Proof. vm_compute. reflexivity. Qed.
 Example c13_ex3 : truncate 2 [0xF0; 0x9F; 0x98; 0x80] = Ok [].
 Proof. vm_compute. reflexivity. Qed.
 
+(* tie to the source for the hand-modelled procedural code: the bodies of these functions, as regenerated from
+   /repo now, have the shape (literals, operators, calls, control flow, constants) the model was written against *)
+Theorem c13_modelled_functions_unchanged_strings : shapes_hold fn_shapes shapes_strings = true.
+Proof. exact generated_shapes_strings. Qed.
+
 Eval vm_compute in "ASSUMPTIONS c13_fits_unchanged". Print Assumptions c13_fits_unchanged.
 Eval vm_compute in "ASSUMPTIONS c13_truncate". Print Assumptions c13_truncate.
 Eval vm_compute in "ASSUMPTIONS c13_floor_never_panics". Print Assumptions c13_floor_never_panics.
@@ -91,3 +96,4 @@ Eval vm_compute in "ASSUMPTIONS c13_icon_skip_if_too_long". Print Assumptions c1
 Eval vm_compute in "ASSUMPTIONS c13_name_truncated". Print Assumptions c13_name_truncated.
 Eval vm_compute in "ASSUMPTIONS c13_limits_generated". Print Assumptions c13_limits_generated.
 Eval vm_compute in "ASSUMPTIONS c13_generated_conforms". Print Assumptions c13_generated_conforms.
+Eval vm_compute in "ASSUMPTIONS c13_modelled_functions_unchanged_strings". Print Assumptions c13_modelled_functions_unchanged_strings.
